@@ -33,3 +33,16 @@ Definition argstr_case (T : ptable) (W : wtable) (ss : list sent) : list string 
   | Some w => [show_str w; show_seq (from_argstr T w)]
   | None => ["WERR"; ""]
   end.
+
+From PT Require Import Lang.WriteStd Lang.ParseStd.
+
+Definition show_ostr (o : option str) : string :=
+  match o with Some w => show_str w | None => "WERR" end.
+
+(* writer-only cases, any table *)
+Definition wp_case (W : wtable) (s : sent) : string := show_ostr (write_polish W s).
+Definition ws_case (S : swtable) (s : sent) : string := show_ostr (write_std S s).
+
+(* model standard parser on a decorated rendering (empty store, auto-declaration) *)
+Definition sp_case (T : ptable) (O : sopts) (i : str) : string :=
+  show_parse (parse_std_opts (cfg_of T true) O [] i).
